@@ -6,6 +6,8 @@ package vh
 
 import (
 	"fmt"
+	"io"
+	"log/slog"
 	"testing"
 	"time"
 
@@ -15,7 +17,7 @@ import (
 )
 
 const c13Rule = "generated concurrent programs (2-6 clients x 1-6 operations: pushes by tag/digest, artifacts, deletes, reads, filtered and paged referrers, monolithic and chunked uploads, abandoned sessions, first writes and reads " +
-	"of fresh repositories from several clients, requests from several client addresses) with a 1-5 ms GC ticker, grace period 10-50 ms or 1 h, RepoUploadMax 1-4, rate limiter on/off, then Close, on both stores, built with -race; " +
+	"of fresh repositories from several clients, requests from several client addresses) with a 1-5 ms GC ticker, grace period 10-50 ms or 1 h, RepoUploadMax 1-4, rate limiter on/off, debug-level logger on/off, then Close, on both stores, built with -race; " +
 	"oracle = Go race detector; non-trivial = >=2 clients touched the same repository concurrently and the program reached >=3 distinct handler kinds; distinct = hash of the program"
 
 var c13Kinds = []string{"putTag", "putDigest", "putArt", "putArt", "delTag", "delDigest", "getTag", "getMan", "getRefs", "getRefsFiltered", "listTags", "upload", "uploadChunked", "uploadChunked", "sessionAbandon",
@@ -27,6 +29,7 @@ func c13Property(t *rapid.T, st *Stats) {
 	grace := rapid.SampledFrom([]time.Duration{10 * time.Millisecond, 50 * time.Millisecond, time.Hour}).Draw(t, "grace")
 	upMax := rapid.IntRange(1, 4).Draw(t, "repoUploadMax")
 	rate := rapid.SampledFrom([]int{0, 100000}).Draw(t, "rateLimit")
+	debugLog := rapid.Bool().Draw(t, "debugLog")
 	prog := genCProgram(t, c13Kinds, 6, 6)
 	e, cleanup := newEnv(t, st, dirStore, func(c *config.Config) {
 		c.Storage.GC.Frequency = freq
@@ -34,6 +37,10 @@ func c13Property(t *rapid.T, st *Stats) {
 		c.Storage.GC.RepoUploadMax = upMax
 		c.API.RateLimit = rate
 		c.API.Referrer.Limit = 600
+		if debugLog {
+			// what "--verbosity debug" sets up: every log call formats its arguments
+			c.Log = slog.New(slog.NewTextHandler(io.Discard, &slog.HandlerOptions{Level: slog.LevelDebug}))
+		}
 	})
 	defer cleanup()
 	u, err := newCUniverse(e.srv, "shared")
@@ -46,7 +53,7 @@ func c13Property(t *rapid.T, st *Stats) {
 		kinds[r.Op.Kind] = true
 	}
 	nt := len(prog.Clients) >= 2 && len(kinds) >= 3
-	trace := append([]string{fmt.Sprintf("dir=%v gcFrequency=%v grace=%v repoUploadMax=%d rateLimit=%d", dirStore, freq, grace, upMax, rate)}, prog.lines()...)
+	trace := append([]string{fmt.Sprintf("dir=%v gcFrequency=%v grace=%v repoUploadMax=%d rateLimit=%d debugLog=%v", dirStore, freq, grace, upMax, rate, debugLog)}, prog.lines()...)
 	cl := []string{}
 	for k := range kinds {
 		cl = append(cl, "op:"+k)
